@@ -563,6 +563,9 @@ def run(ctx, ck):
         fl = ctx.flow(f)
         for a in attrs:
             n_upd, bad, n_plain = first_touch_is_plain_assign(fl, a)
+            if n_upd == 0 and n_plain == 0:
+                # the result is not kept under this name (any more): nothing to judge, the anchor is gone
+                raise AnalysisError('%s neither assigns nor updates %s: the result attribute moved' % (q, a))
             ck.ob('R-FRESH.assign-before-update', '%s|%s' % (q, a),
                   n_upd >= 1 and n_plain >= 1 and not bad, f.loc(bad[0] if bad else None),
                   '%d in-place updates of %s, %d not dominated by a plain assignment'
@@ -576,6 +579,8 @@ def run(ctx, ck):
         fl = ctx.flow(f)
         asg = assigns_to_attr(f, attr)
         ok = len(asg) >= 1
+        if not asg and not any(isinstance(x_, ast.Attribute) and norm(x_) == attr for x_ in ast.walk(f.node)):
+            raise AnalysisError('%s does not mention %s: the result attribute moved' % (q, attr))
         g_ = m.resolve_method(f.cls.name, attr.split('.', 1)[1]) if f.cls is not None else None
         if not asg and g_ is not None and g_.kind == 'property':
             # not stored at all: a plain property computes the value on demand from what this call stored
